@@ -13,7 +13,7 @@ from vfw.gen.corpus import rng
 PROPERTY = "C25"
 LEVEL = "exploration"
 RULE = (
-    "case = small directory tree (depth <= 3; dirs d1, d1/d2, d1/d2/d3, e1; files a.sql b.sql keep.sql Q.SQL x.txt in each) with 1-2 ignore sources (.sqlfluffignore, or ignore_paths in "
+    "case = small directory tree (depth <= 3; dirs d1, d1/d2, d1/d2/d3, e1 and the prefix-named siblings d1x, d1/d2x; files a.sql b.sql keep.sql Q.SQL x.txt in each) with 1-2 ignore sources (.sqlfluffignore, or ignore_paths in "
     ".sqlfluff / pyproject.toml) placed at any level, patterns from {name, dir/, *.sql, negation, /anchored, **/deep, nested/name}; for each target (root, d1, d1/d2, e1, an exact file) the real "
     "paths_from_path is called with every spelling (relative, ./relative, absolute, trailing slash, a '..' detour, '.' ) in a fresh process whose cwd is the project root (and, for targets under d1 "
     "with all ignore sources under d1, also from cwd=d1); oracle: (i) all spellings select the same set of files, (ii) that set equals an independent os.walk + pathspec model: configured extension "
@@ -21,10 +21,10 @@ RULE = (
 )
 ASSUMPTIONS = ["gitignore pattern semantics are those of the pathspec library; negations are only generated for files whose directory is not itself excluded", "ignore sources above the working directory are not generated (their applicability is not decided by the statement)"]
 TIMEOUT = {"quick": 600, "thorough": 1200}
-MIN_NONTRIVIAL = {"quick": 100, "thorough": 800}
+MIN_NONTRIVIAL = {"quick": 80, "thorough": 800}
 REQUIRED_COUNTERS = ["spellings_compared", "model_comparisons"]
 N = 2400
-DIRS = ["", "d1", "d1/d2", "d1/d2/d3", "e1"]
+DIRS = ["", "d1", "d1/d2", "d1/d2/d3", "e1", "d1x", "d1/d2x"]
 FILES = ["a.sql", "b.sql", "keep.sql", "Q.SQL", "x.txt"]
 PATTERNS = ["a.sql", "b.sql", "d2/", "d3/", "*.sql\n!keep.sql", "/a.sql", "**/b.sql", "d2/a.sql", "d1/", "e1/", "keep.sql", "d2/d3/", "*.SQL", "/d1/d2/b.sql", "q.sql", "d1/d2/"]
 
